@@ -611,6 +611,8 @@ pub enum Shape {
     HereDoc,
     /// v=<payload>; echo "$v" | cat{k} | sink   (payload without trailing newlines; echo adds one)
     VarEcho(u8),
+    /// gen | while IFS= read -r l; do echo "$l"; done | sink   (the payload ends with a newline)
+    ReadLoop,
 }
 
 #[derive(Clone, Debug, PartialEq, Eq, Hash, Serialize, Deserialize)]
@@ -627,6 +629,9 @@ pub struct DataCase {
     /// buffer size)
     #[serde(default)]
     pub utf8: bool,
+    /// white space of several kinds right before the trailing newlines (and between the last two)
+    #[serde(default)]
+    pub ws: bool,
 }
 
 fn pre_text(pre: u8) -> String {
@@ -649,9 +654,13 @@ fn cats(k: u8) -> String {
 
 fn check_data(c: &DataCase) -> Outcome {
     let n = c.n as usize;
-    let tn = (c.trailing as usize).min(n);
-    let payload = if c.utf8 { probes::pattern_utf8(n, tn) } else { probes::pattern(n, tn) };
-    let u = if c.utf8 { " u" } else { "" };
+    let mut tn = (c.trailing as usize).min(n);
+    if c.shape == Shape::ReadLoop {
+        // the loop drops an unterminated last line by design: the payload ends with a newline
+        tn = tn.max(1).min(n);
+    }
+    let payload = if c.ws { probes::pattern_ws(n, tn) } else if c.utf8 { probes::pattern_utf8(n, tn) } else { probes::pattern(n, tn) };
+    let u = if c.ws { " w" } else if c.utf8 { " u" } else { "" };
     let stripped: Vec<u8> = {
         let mut v = payload.clone();
         while v.last() == Some(&b'\n') {
@@ -673,6 +682,11 @@ fn check_data(c: &DataCase) -> Outcome {
             }
             (format!("sink s <<'EOF'\n{body}EOF\nsnap end\n"), Some(body.into_bytes()), None)
         }
+        Shape::ReadLoop => (
+            format!("gen {n} {tn}{u} | while IFS= read -r l; do echo \"$l\"; done | sink s\nsnap end\n"),
+            Some(if payload.last() == Some(&b'\n') { payload.clone() } else { Vec::new() }),
+            None,
+        ),
         Shape::VarEcho(k) => {
             let v = String::from_utf8(stripped.clone()).unwrap();
             let mut want = stripped.clone();
@@ -727,11 +741,13 @@ fn check_data(c: &DataCase) -> Outcome {
         Shape::Subst(k) => 1 + k as usize,
         Shape::Nested => 2,
         Shape::HereDoc => 1,
+        Shape::ReadLoop => 3,
     };
     let nonfifo = r.log.choices.iter().any(|c| c.1 != 0);
     Outcome::pass((n > 512 || stages >= 2) && nonfifo)
         .class(match n { 0 => "n=0", 1..=511 => "n<PIPE_BUF", 512..=1024 => "PIPE_BUF<=n<=PIPE_SIZE", _ => "n>PIPE_SIZE" })
-        .class(match c.shape { Shape::Pipe(_) => "pipe", Shape::Subst(_) => "subst", Shape::Nested => "nested-subst", Shape::HereDoc => "heredoc", Shape::VarEcho(_) => "var-echo" })
+        .class(match c.shape { Shape::Pipe(_) => "pipe", Shape::Subst(_) => "subst", Shape::Nested => "nested-subst", Shape::HereDoc => "heredoc", Shape::VarEcho(_) => "var-echo", Shape::ReadLoop => "read-loop" })
+        .class_if(c.ws, "white-space-before-the-trailing-newlines")
         .class_if(tn > 0, "trailing-newlines")
         .class_if(nonfifo, "non-fifo-schedule")
         .class_if(c.pre & 1 != 0, "stdout-closed-before")
@@ -922,7 +938,7 @@ fn arb_here_case() -> impl Strategy<Value = HereCase> {
 const SIZES: [u16; 19] = [0, 1, 2, 511, 512, 513, 1023, 1024, 1025, 1535, 1536, 2047, 2048, 2049, 3071, 3072, 4095, 4096, 4097];
 
 fn shapes() -> Vec<Shape> {
-    vec![Shape::Pipe(0), Shape::Pipe(1), Shape::Pipe(3), Shape::Subst(0), Shape::Subst(2), Shape::Nested, Shape::HereDoc, Shape::VarEcho(1)]
+    vec![Shape::Pipe(0), Shape::Pipe(1), Shape::Pipe(3), Shape::Subst(0), Shape::Subst(2), Shape::Nested, Shape::HereDoc, Shape::VarEcho(1), Shape::ReadLoop]
 }
 
 pub fn run14(ctx: &Ctx, st: &mut Stats) {
@@ -945,15 +961,17 @@ pub fn run14(ctx: &Ctx, st: &mut Stats) {
         let chooser = if sc == 0 { Chooser::Fifo } else { Chooser::Seeded(seed.wrapping_mul(1000).wrapping_add(i)) };
         // the multi-byte payload on the plain descriptor set-up (alternating), ASCII otherwise
         let utf8 = pre == 0 && sc % 2 == 1;
-        Some(DataCase { n, trailing, shape, chooser, pre, utf8 })
+        // the white-space tail on every third of the remaining schedules
+        let ws = !utf8 && sc % 3 == 2;
+        Some(DataCase { n, trailing, shape, chooser, pre, utf8, ws })
     };
     DATA.run_exhaustive(ctx, st, total, &decode);
     st.exhaustive_drivers.retain(|d| d != "data"); // the schedule dimension is sampled, not enumerated
     // random sizes, scripted (shrinkable) schedules
     let n = ctx.tier.pick(150_000, 3_000_000);
     DATA.run_random(ctx, st, n, || {
-        (0u16..4200, 0u8..4, prop::sample::select(shapes()), prop::collection::vec(any::<u8>(), 0..200), prop_oneof![3 => Just(0u8), 2 => 0u8..8], prop::bool::weighted(0.4))
-            .prop_map(|(n, trailing, shape, v, pre, utf8)| DataCase { n, trailing, shape, chooser: Chooser::Scripted(v), pre, utf8 })
+        (0u16..4200, 0u8..4, prop::sample::select(shapes()), prop::collection::vec(any::<u8>(), 0..200), prop_oneof![3 => Just(0u8), 2 => 0u8..8], 0u8..5)
+            .prop_map(|(n, trailing, shape, v, pre, kind)| DataCase { n, trailing, shape, chooser: Chooser::Scripted(v), pre, utf8: kind >= 3, ws: kind == 2 })
     });
     // here-document bodies: delimiter forms x tab stripping x awkward lines
     let nl = HERE_LINES.len() as u64;
@@ -977,7 +995,7 @@ pub fn run14(ctx: &Ctx, st: &mut Stats) {
             |chooser| {
                 // run through check_data to share the oracle; the RunResult is recomputed there, so
                 // here only the schedule log is needed
-                let c = DataCase { n, trailing: 1, shape, chooser: chooser.clone(), pre: 0, utf8: false };
+                let c = DataCase { n, trailing: 1, shape, chooser: chooser.clone(), pre: 0, utf8: false, ws: false };
                 let (out, _) = DATA.eval(&c);
                 if let Verdict::Fail(m) = out.verdict {
                     fail.get_or_insert(Failure { driver: "data".into(), case: serde_json::to_value(&c).unwrap(), message: m });
